@@ -464,7 +464,14 @@ pub fn batchy(level: usize) -> Universe {
             many(Orchard, 100, &[(99, A, External, 54_000), (0, B, External, 55_000)]),
         ]),
         // sapling 99 (no flush) then 1 -> exactly 100 -> second batch; spend of a1 and a2
-        block(vec![many(Sapling, 99, &[(98, A, Diversified, 56_000)]), tx(vec![spend("a1"), okind(2, Sapling, 57_000)]), tx(vec![spend("a2"), okind(2, Orchard, 58_000)])]),
+        block(vec![
+            many(Sapling, 99, &[(98, A, Diversified, 56_000)]),
+            tx(vec![spend("a1"), okind(2, Sapling, 57_000)]),
+            tx(vec![spend("a2"), okind(2, Orchard, 58_000)]),
+            // notes received here and spent in the NEXT block of the same scan batch, one per pool
+            tx(vec![out("rs", A, Sapling, External, 71_000), out("ro", A, Orchard, External, 72_000), out("ri", A, Ironwood, External, 73_000)]),
+        ]),
+        block(vec![tx(vec![spend("rs"), okind(2, Sapling, 66_000)]), tx(vec![spend("ro"), okind(2, Orchard, 67_000)]), tx(vec![spend("ri"), okind(2, Ironwood, 68_000)])]),
     ];
     if level >= 1 {
         // ironwood 50 + 51 -> one batch; orchard 3 (+1 from the spend above) -> trailing batch
@@ -615,6 +622,7 @@ fn schedules(run: &Run, level: usize, bound: usize, wall_cap: f64, t0: Instant) 
         with_client: false,
         free_scans: false,
         segment_scans: false,
+        max_run: usize::MAX,
     };
     let cx = graph::Ctx { u: &u, cfg: &cfg, fresh: vec![graph::FreshRef::default()] };
     // pre-state: setup block scanned, tip known
@@ -731,7 +739,7 @@ pub fn replay(kind: &str, case: &Value) -> Result<(), String> {
         "schedule" | "inline" => {
             let level = case["level"].as_u64().unwrap_or(0) as usize;
             let u = batchy(level);
-            let cfg = graph::Cfg { retention: 4, max_rewinds: 0, max_depth: 0, check_balance: true, check_trees: false, check_queue: false, wall_cap_s: 0.0, state_cap: 0, tips: vec![], rewind_heights: vec![], splits: vec![], with_roots: false, with_client: false, free_scans: false, segment_scans: false };
+            let cfg = graph::Cfg { retention: 4, max_rewinds: 0, max_depth: 0, check_balance: true, check_trees: false, check_queue: false, wall_cap_s: 0.0, state_cap: 0, tips: vec![], rewind_heights: vec![], splits: vec![], with_roots: false, with_client: false, free_scans: false, segment_scans: false, max_run: usize::MAX };
             let cx = graph::Ctx { u: &u, cfg: &cfg, fresh: vec![graph::FreshRef::default()] };
             let mut w = db::new_wallet(&u, 4, false);
             scan_cached_blocks(&u.network, &u.source(0), &mut w.db, BlockHeight::from_u32(FIRST), &u.genesis, 1).expect("setup scan");
